@@ -30,45 +30,72 @@ def simulate(ctx, cfg, num, depth=260):
     return vecs
 
 
+def tree_variant():
+    """Which variant of the transcription describes the tree under test: "pinned" (the ring buffer as it was when
+    the findings were recorded) or "current" (with the repairs CurrentRepairs of spec/SampleBuilder.tla).  The
+    repaired samplebuilder.go is recognised by the field the repair introduces; VERIF_C31_IMPL overrides.  The
+    choice only selects the model the conformance replay is compared with (drift): verdicts do not depend on it."""
+    v = os.environ.get("VERIF_C31_IMPL")
+    if v in ("pinned", "current"):
+        return v
+    try:
+        src = open(os.path.join(vlib.REPO, "pkg", "media", "samplebuilder", "samplebuilder.go")).read()
+    except OSError:
+        return "pinned"
+    return "current" if "consumedTail" in src else "pinned"
+
+
+def classes_of(results, classes):
+    for r in results:
+        for v in r.tag("VERIF_CLASS"):
+            v = v[0]
+            k = "%s dups=%s" % (v["class"], "yes" if v["dups"] else "no")
+            if v["vec"].get("eager"):
+                k += " eager"
+            if v["vec"].get("heads"):
+                k += " all-heads"
+            if k not in classes or len(v["vec"]["script"]) < len(classes[k]["script"]):
+                classes[k] = v["vec"]
+
+
 def run(ctx):
     quick = ctx.quick
     q = "Q" if quick else ""
+    variant = tree_variant()
+    ctx.cov["transcription_variant_for_this_tree"] = variant
+    ctx.log("transcription variant describing this tree: %s" % variant)
     # 1. normative machine: the legality guards imply InOrder and NoPacketTwice (modulus 16)
     vlib.tlc_model(ctx, "SampleBuilder", "SampleBuilder_Abstract" + q, workers=6)
-    # 2. the ring-buffer algorithm as it is, transcribed (modulus 16): ContiguousSameTs, StartsAtHead and
-    #    completeness hold on every explored session; TLC prints one example per failure class of the others
-    res = vlib.tlc_model(ctx, "SampleBuilder", "SampleBuilder_Ring" + q, workers=8)
+    # 2. the ring-buffer algorithm of the pinned tree, transcribed (modulus 16) -- the documented counterexample:
+    #    ContiguousSameTs, StartsAtHead and completeness hold on every explored session; TLC prints one example
+    #    per failure class of InOrder / NoPacketTwice.  These examples are replayed on the tree under test.
+    pinned_cfgs = ["Ring" + q] if (quick or variant == "pinned") else ["RingQ"]
+    if not quick and variant == "pinned":
+        # time-based purging (tooOld path); a receiver that pops after every push; every packet a partition head;
+        # a window that a single frame cannot overflow (maxLate 4)
+        pinned_cfgs += ["RingDelay", "RingEager", "RingHeads", "RingWide"]
+    elif not quick:
+        pinned_cfgs += ["RingHeads"]
+    pinned = {c: vlib.tlc_model(ctx, "SampleBuilder", "SampleBuilder_" + c, workers=8) for c in pinned_cfgs}
     classes = {}
-    for v in res.tag("VERIF_CLASS"):
-        v = v[0]
-        k = "%s dups=%s" % (v["class"], "yes" if v["dups"] else "no")
-        if v["vec"].get("eager"):
-            k += " eager"
-        if k not in classes or len(v["vec"]["script"]) < len(classes[k]["script"]):
-            classes[k] = v["vec"]
-    ctx.cov["asis_model_failure_classes"] = sorted(classes)
-    # every finished session of the exhaustive run, with the samples the transcription predicts
-    done = list(res.tag("VERIF_DONE"))
-    if not quick:
-        # same, with time-based purging (WithMaxTimeDelay) in play: the tooOld path of purgeBuffers
-        resd = vlib.tlc_model(ctx, "SampleBuilder", "SampleBuilder_RingDelay", workers=6)
-        done += list(resd.tag("VERIF_DONE"))
-        # same, with a receiver that pops after every push (4 packets)
-        rese = vlib.tlc_model(ctx, "SampleBuilder", "SampleBuilder_RingEager", workers=6)
-        done += list(rese.tag("VERIF_DONE"))
-        # same, with a window that a single frame cannot overflow (maxLate 4): which failure classes remain
-        resw = vlib.tlc_model(ctx, "SampleBuilder", "SampleBuilder_RingWide", workers=8)
-        for r2 in (resd, rese, resw):
-            for v in r2.tag("VERIF_CLASS"):
-                v = v[0]
-                k = "%s dups=%s" % (v["class"], "yes" if v["dups"] else "no")
-                if v["vec"].get("eager"):
-                    k += " eager"
-                if k not in classes or len(v["vec"]["script"]) < len(classes[k]["script"]):
-                    classes[k] = v["vec"]
-        ctx.cov["asis_model_failure_classes"] = sorted(classes)
+    classes_of(pinned.values(), classes)
+    ctx.cov["pinned_model_failure_classes"] = sorted(classes)
+    if not classes:
+        ctx.notes.append("the pinned transcription no longer exhibits a failure class")
+    if "RingWide" in pinned:
         # the recorded defect's precondition, on the models: with maxLate >= 4 no failure without a Flush before
-        ctx.cov["asis_model_classes_window_without_flush"] = sorted(k for k in classes if "/no-flush-yet:window" in k)
+        ctx.cov["pinned_model_classes_window_without_flush"] = sorted(k for k in classes if "/no-flush-yet:window" in k)
+    # 3. the algorithm with the repairs of the current samplebuilder.go (CurrentRepairs) satisfies all five
+    #    predicates and keeps its ring locations sane, on the same bounds
+    cur_cfgs = ["Ring" + q + "_cur"]
+    if not quick:
+        cur_cfgs += ["RingQ_cur", "RingDelay_cur", "RingEager_cur", "RingHeads_cur"]
+    current = {c: vlib.tlc_model(ctx, "SampleBuilder", "SampleBuilder_" + c, workers=8) for c in cur_cfgs}
+    # every finished session of the exhaustive runs of the variant that describes this tree, with the samples the
+    # transcription predicts
+    done = []
+    for r in (pinned if variant == "pinned" else current).values():
+        done += list(r.tag("VERIF_DONE"))
     conf = []
     for v in done:
         c = dict(v[0]["vec"])
@@ -77,15 +104,11 @@ def run(ctx):
         conf.append(c)
     if not conf:
         raise vlib.NoVerdict("the exhaustive run printed no finished session")
-    # 3. the same algorithm with the three named repairs satisfies all five predicates (same bounds)
-    vlib.tlc_model(ctx, "SampleBuilder", "SampleBuilder_RingABC" + q, workers=8)
-    if not quick:
-        vlib.tlc_model(ctx, "SampleBuilder", "SampleBuilder_RingABCQ", workers=6)   # incl. the eager receiver
-    # 4. as is, one purgeBuffers call can iterate over the whole ring (filled.head overtakes filled.tail)
+    # 4. pinned: one purgeBuffers call can iterate over the whole ring (filled.head overtakes filled.tail)
     if not quick:
         ov = vlib.tlc_expect_violation(ctx, "SampleBuilder", "SampleBuilder_RingOvershoot", workers=2)
-        ctx.cov["asis_model_overshoot"] = next((ln for ln in ov.stdout.splitlines() if ln.startswith("Error: Invariant")),
-                                               "none (rc=%s)" % ov.rc)
+        ctx.cov["pinned_model_overshoot"] = next((ln for ln in ov.stdout.splitlines() if ln.startswith("Error: Invariant")),
+                                                 "none (rc=%s)" % ov.rc)
 
     # 5. sessions: TLC's counterexamples first, then seeded -simulate runs of the generator (modulus 2^16)
     vecs = []
@@ -125,8 +148,8 @@ def run(ctx):
     vlib.go_run(ctx, binary, "TestVerifSampleBuilder", infile, trace, timeout=1500)
 
     # 5b. conformance of the transcription: ALL finished sessions of the exhaustive run are replayed and pion's
-    #     (a seeded subset of 20 000 when there are more) output is compared with the model's prediction.  A difference is model drift (reported in the
-    #     evidence), never a verdict: verdicts come from the normative predicates only.
+    #     (a seeded subset of 20 000 when there are more) output is compared with the model's prediction.  A difference
+    #     is model drift (reported in the evidence), never a verdict: verdicts come from the normative predicates only.
     ctx.cov["exhaustive_sessions_enumerated"] = len(conf)
     # seeded subset when there are many; sessions with WithMaxTimeDelay are kept few because Flush can take about
     # a second on them (it walks the whole 16-bit ring, see the model's ModelFilledSane); the numbers replayed are
